@@ -271,6 +271,9 @@ def render_blueprint(spec):
         w("        height: [%s]\n" % ", ".join(_fmt(float(h)) for h in a["height"]))
         w("        axial mesh points: [%s]\n" % ", ".join(str(int(m)) for m in a["axial mesh points"]))
         w("        xs types: [%s]\n" % ", ".join(a["xs types"]))
+        for k in ("nozzleType", "crCurrentElevation", "crInsertedElevation", "crWithdrawnElevation"):  # stated only when a caller asks for them
+            if a.get(k) is not None:
+                w("        %s: %s\n" % (k, _fmt(a[k])))
         if a.get("material modifications"):
             w("        material modifications:\n")
             for k, v in a["material modifications"].items():
